@@ -20,7 +20,8 @@ Proof.
   cbn [bempty nth_error].
   destruct (c =? 91) eqn:E.
   - rewrite zslice_from by lia. change (bskip (Z.to_N 1) (c :: rest)) with rest.
-    destruct (split_char 93 rest) as [|h [|p [|x l]]]; try reflexivity.
+    rewrite rsplit_max1.
+    destruct (rcut_at 93 rest) as [[h p]|]; [|reflexivity].
     destruct (has_char 58 p) eqn:Hp; [|reflexivity].
     destruct (split_char 58 p) as [|f0 [|q l]]; reflexivity.
   - destruct (count_char 58 (c :: rest) =? 1)%Z; [|reflexivity].
@@ -55,15 +56,15 @@ Proof. cbn [opt_int]. rewrite py_int_dec_of_Z. reflexivity. Qed.
 
 Lemma parse_bracket rest d :
   parse_host_port (91 :: rest) d =
-  match split_char 93 rest with
-  | [h; p] =>
+  match rcut_at 93 rest with
+  | Some (h, p) =>
       if has_char 58 p then
         match split_char 58 p with
         | _ :: q :: _ => do pn <- opt_int (VStr q); Ok (Some h, pn)
         | _ => Exn IndexError
         end
       else do pn <- opt_int d; Ok (Some h, pn)
-  | _ => Exn ValueError
+  | None => Exn ValueError
   end.
 Proof. reflexivity. Qed.
 
@@ -81,27 +82,28 @@ Proof.
   unfold parse_host_port. rewrite N.eqb_sym, Hp. reflexivity.
 Qed.
 
-Lemma three_fields {A} (l : list str) (X : str -> str -> res A) :
-  (3 <= Z.of_nat (length l))%Z ->
-  match l with [h; p] => X h p | _ => Exn ValueError end = Exn ValueError.
-Proof. destruct l as [|a [|b [|c l]]]; cbn [length]; intros H; try lia; reflexivity. Qed.
-
 Lemma bind_host_inv (X : res (option Z)) (h host : str) y :
   (do pn <- X; Ok (Some h, pn)) = Ok (Some host, y) -> h = host.
 Proof. destruct X; cbn [bind]; intros H; inversion H; reflexivity. Qed.
 
+(* the host a bracketed address yields is what precedes its last ']' *)
 Lemma bracket_host_inv rest d host y :
   parse_host_port (91 :: rest) d = Ok (Some host, y) ->
-  exists p, rest = host ++ 93 :: p /\ has_char 93 host = false.
+  exists p, rcut_at 93 rest = Some (host, p).
 Proof.
   rewrite parse_bracket. intros H.
-  destruct (split_char 93 rest) as [|h [|p [|x l]]] eqn:E; try discriminate.
-  destruct (split_char_two_inv _ _ _ _ E) as (Hs & Hh & _).
+  destruct (rcut_at 93 rest) as [[h p]|] eqn:E; [|discriminate].
   assert (h = host).
   { destruct (has_char 58 p).
     - destruct (split_char 58 p) as [|f0 [|q l]]; try discriminate. eapply bind_host_inv; exact H.
     - eapply bind_host_inv; exact H. }
-  subst h. exists p. split; assumption.
+  subst h. exists p. reflexivity.
+Qed.
+
+(* ... so it is strictly shorter than the text after the '[' *)
+Lemma rcut_shorter c s a b : rcut_at c s = Some (a, b) -> (length a < length s)%nat.
+Proof.
+  intros H. destruct (rcut_at_spec _ _ _ _ H) as [-> _]. rewrite app_length. cbn [length]. lia.
 Qed.
 
 Lemma length_app_neq {A} (a b : list A) : b <> [] -> a ++ b <> a.
@@ -120,31 +122,24 @@ Proof.
   { rewrite has_char_cons. rewrite dec_of_Z_no_char by lia. reflexivity. }
   assert (D58 : has_char 58 (dec_of_Z port) = false) by (apply dec_of_Z_no_char; lia).
   unfold rt_host, escape_ipv6. destruct valid.
-  - (* bracketed *)
+  - (* bracketed: every host *)
     replace (([91] ++ host ++ [93]) ++ [58] ++ dec_of_Z port)
       with (91 :: (host ++ 93 :: (58 :: dec_of_Z port)))
       by (cbn [app]; rewrite <- !app_assoc; reflexivity).
-    rewrite parse_bracket.
-    destruct (has_char 93 host) eqn:H93; cbn [negb]; split; intros H; try discriminate; try reflexivity.
-    + exfalso. rewrite three_fields in H; [discriminate|].
-      rewrite split_char_length, count_char_app. cbn [count_char N.eqb Pos.eqb].
-      pose proof (count_char_pos _ _ H93). pose proof (count_char_nonneg 93 (dec_of_Z port)). lia.
-    + rewrite split_char_two by assumption.
-      rewrite has_char_cons, N.eqb_refl. cbn [orb].
-      change (58 :: dec_of_Z port) with ([] ++ 58 :: dec_of_Z port).
-      rewrite split_char_two by (reflexivity || assumption).
-      rewrite opt_int_dec. reflexivity.
+    rewrite parse_bracket, rcut_at_last by exact D93.
+    rewrite has_char_cons, N.eqb_refl. cbn [orb].
+    change (58 :: dec_of_Z port) with ([] ++ 58 :: dec_of_Z port).
+    rewrite split_char_two by (reflexivity || assumption).
+    rewrite opt_int_dec. split; reflexivity.
   - (* not bracketed *)
     cbn [app]. destruct (prefixb [91] host) eqn:Hp.
     + rewrite andb_false_r. split; [|discriminate]. intros H. exfalso.
       destruct host as [|c rest]; [discriminate|].
       cbn [prefixb] in Hp. rewrite andb_true_r in Hp. apply N.eqb_eq in Hp. subst c.
-      cbn [app] in H. apply bracket_host_inv in H. destruct H as (p & Hs & Hh).
-      assert (G : has_char 93 (rest ++ 58 :: dec_of_Z port) = true).
-      { rewrite Hs. cbn [app]. rewrite has_char_cons.
-        rewrite has_char_app, (has_char_cons 93 93), N.eqb_refl. apply orb_true_r. }
-      rewrite has_char_app, D93, orb_false_r in G.
-      rewrite has_char_cons, G, orb_true_r in Hh. discriminate.
+      cbn [app] in H. apply bracket_host_inv in H. destruct H as (p & Hs).
+      rewrite rcut_at_app_tail in Hs by exact D93.
+      destruct (rcut_at 93 rest) as [[a b]|] eqn:E; [|discriminate].
+      inversion Hs; subst. apply rcut_shorter in E. cbn [length] in E. lia.
     + rewrite andb_true_r.
       assert (Hne : host ++ 58 :: dec_of_Z port <> []) by (destruct host; discriminate).
       assert (Hp' : prefixb [91] (host ++ 58 :: dec_of_Z port) = false).
@@ -170,21 +165,16 @@ Proof.
   assert (OI : opt_int (pv_of d) = Ok d) by (destruct d; reflexivity).
   unfold rt_host_default, escape_ipv6. destruct valid.
   - replace ([91] ++ host ++ [93]) with (91 :: (host ++ 93 :: [])) by reflexivity.
-    rewrite parse_bracket.
-    destruct (has_char 93 host) eqn:H93; cbn [negb]; split; intros H; try discriminate; try reflexivity.
-    + exfalso. rewrite three_fields in H; [discriminate|].
-      rewrite split_char_length, count_char_app. cbn [count_char]. rewrite N.eqb_refl.
-      pose proof (count_char_pos _ _ H93). lia.
-    + rewrite split_char_two by (assumption || reflexivity).
-      cbn [has_char memN]. rewrite OI. reflexivity.
+    rewrite parse_bracket, rcut_at_last by reflexivity.
+    cbn [has_char memN]. rewrite OI. split; reflexivity.
   - destruct host as [|c rest].
     + cbn. split; discriminate.
     + cbn [bempty negb andb].
       destruct (prefixb [91] (c :: rest)) eqn:Hp; cbn [negb andb].
       * split; [|discriminate]. intros H. exfalso.
         cbn [prefixb] in Hp. rewrite andb_true_r in Hp. apply N.eqb_eq in Hp. subst c.
-        apply bracket_host_inv in H. destruct H as (p & Hs & _).
-        apply (f_equal (@length N)) in Hs. rewrite app_length in Hs. cbn [length] in Hs. lia.
+        apply bracket_host_inv in H. destruct H as (p & Hs).
+        apply rcut_shorter in Hs. cbn [length] in Hs. lia.
       * rewrite (parse_nobracket (c :: rest) _ ltac:(discriminate) Hp).
         destruct (count_char 58 (c :: rest) =? 1)%Z eqn:C1; cbn [negb]; split; intros H; try discriminate.
         -- exfalso.
@@ -198,69 +188,64 @@ Qed.
 
 (* ---- the three families of the property text ---- *)
 
-(* names and IPv4 literals: no ':' (and no brackets) — whatever is_valid_ipv6 says *)
+(* names and IPv4 literals: no ':' and no leading '[' — whatever is_valid_ipv6 says *)
 Corollary host_port_roundtrip_plain valid host port :
-  has_char 58 host = false -> has_char 91 host = false -> has_char 93 host = false ->
+  has_char 58 host = false -> prefixb [91] host = false ->
   parse_host_port (escape_ipv6 valid host ++ [58] ++ dec_of_Z port) VNone = Ok (Some host, Some port).
 Proof.
-  intros H58 H91 H93. apply host_port_roundtrip_iff. unfold rt_host.
-  destruct valid; [rewrite H93; reflexivity|]. rewrite H58.
-  destruct host as [|c rest]; [reflexivity|]. rewrite has_char_cons in H91.
-  apply orb_false_iff in H91. destruct H91 as [Hc _]. cbn [prefixb negb andb].
-  rewrite N.eqb_sym, Hc. reflexivity.
+  intros H58 H91. apply host_port_roundtrip_iff. unfold rt_host.
+  destruct valid; [reflexivity|]. rewrite H58, H91. reflexivity.
 Qed.
 
-(* IPv6 literals (with or without a scope id): what escape_ipv6 brackets *)
+(* IPv6 literals with or without a scope id — everything escape_ipv6 brackets, no condition *)
 Corollary host_port_roundtrip_ipv6 host port :
-  has_char 93 host = false ->
   parse_host_port (escape_ipv6 true host ++ [58] ++ dec_of_Z port) VNone = Ok (Some host, Some port).
-Proof. intros H. apply host_port_roundtrip_iff. unfold rt_host. rewrite H. reflexivity. Qed.
+Proof. apply host_port_roundtrip_iff. reflexivity. Qed.
 
 Corollary host_default_plain valid host d :
-  host <> [] -> has_char 58 host = false -> has_char 91 host = false -> has_char 93 host = false ->
+  host <> [] -> has_char 58 host = false -> prefixb [91] host = false ->
   parse_host_port (escape_ipv6 valid host) (pv_of d) = Ok (Some host, d).
 Proof.
-  intros Hne H58 H91 H93. apply host_default_roundtrip_iff. unfold rt_host_default.
-  destruct valid; [rewrite H93; reflexivity|].
-  destruct host as [|c rest]; [congruence|]. rewrite has_char_cons in H91.
-  apply orb_false_iff in H91. destruct H91 as [Hc _]. cbn [prefixb bempty negb andb].
-  rewrite N.eqb_sym, Hc. apply count_char_0 in H58. rewrite H58. reflexivity.
+  intros Hne H58 H91. apply host_default_roundtrip_iff. unfold rt_host_default.
+  destruct valid; [reflexivity|].
+  destruct host as [|c rest]; [congruence|]. rewrite H91.
+  apply count_char_0 in H58. rewrite H58. reflexivity.
 Qed.
 
 Corollary host_default_ipv6 host d :
-  has_char 93 host = false ->
   parse_host_port (escape_ipv6 true host) (pv_of d) = Ok (Some host, d).
-Proof. intros H. apply host_default_roundtrip_iff. unfold rt_host_default. rewrite H. reflexivity. Qed.
+Proof. apply host_default_roundtrip_iff. reflexivity. Qed.
 
 (* non-vacuity and the negative instances *)
 Example ex_rt_name : rt_host false (lit "server01") = true /\ rt_host_default false (lit "server01") = true.
 Proof. split; reflexivity. Qed.
 Example ex_rt_ipv4 : rt_host false (lit "10.0.0.1") = true /\ rt_host_default false (lit "10.0.0.1") = true.
 Proof. split; reflexivity. Qed.
-Example ex_rt_ipv6 : rt_host true (lit "2001:db8:85a3::8a2e:370:7334") = true /\ rt_host_default true (lit "::1") = true.
-Proof. split; reflexivity. Qed.
-Example ex_rt_ipv6_scope : rt_host true (lit "fe80::1%eth0") = true /\ rt_host_default true (lit "fe80::1%eth0") = true.
-Proof. split; reflexivity. Qed.
-(* finding H1: a scope id containing ']' *)
-Example ex_scope_bracket_fails :
-  rt_host true (lit "fe80::1%a]b") = false /\
-  parse_host_port (escape_ipv6 true (lit "fe80::1%a]b") ++ [58] ++ dec_of_Z 80) VNone = Exn ValueError.
-Proof. split; vm_compute; reflexivity. Qed.
+(* repaired finding H1 (03fda28): a scope id containing ']' now round-trips *)
+Example ex_scope_bracket_ok :
+  parse_host_port (escape_ipv6 true (lit "fe80::1%a]b") ++ [58] ++ dec_of_Z 80) VNone = Ok (Some (lit "fe80::1%a]b"), Some 80%Z).
+Proof. vm_compute. reflexivity. Qed.
 (* one ':' and no brackets (is_valid_ipv6 says no): host and port are confused *)
 Example ex_one_colon_fails :
   rt_host false (lit "a:b") = false /\
   parse_host_port (escape_ipv6 false (lit "a:b") ++ [58] ++ dec_of_Z 80) VNone = Ok (Some (lit "a:b:80"), None).
+Proof. split; vm_compute; reflexivity. Qed.
+Example ex_one_colon_default_fails :
+  rt_host_default false (lit "a:b") = false /\
+  parse_host_port (escape_ipv6 false (lit "a:b")) (pv_of (Some 7%Z)) = Exn ValueError.
 Proof. split; vm_compute; reflexivity. Qed.
 (* an unbracketed host with two or more colons keeps its default port but not an explicit one *)
 Example ex_unescaped_ipv6 :
   rt_host_default false (lit "a:b:c") = true /\ rt_host false (lit "a:b:c") = false.
 Proof. split; reflexivity. Qed.
 
-Lemma host_port_full_refuted :
-  ~ (forall host port, parse_host_port (escape_ipv6 true host ++ [58] ++ dec_of_Z port) VNone = Ok (Some host, Some port)).
+(* what is still excluded: the statement for hosts escape_ipv6 does NOT bracket is false
+   without the side conditions (a host with a ':' that is_valid_ipv6 refuses) *)
+Lemma host_port_unescaped_refuted :
+  ~ (forall host port, parse_host_port (escape_ipv6 false host ++ [58] ++ dec_of_Z port) VNone = Ok (Some host, Some port)).
 Proof.
-  intros H. specialize (H (lit "fe80::1%a]b") 80%Z).
-  rewrite (proj2 ex_scope_bracket_fails) in H. discriminate.
+  intros H. specialize (H (lit "a:b") 80%Z).
+  rewrite (proj2 ex_one_colon_fails) in H. discriminate.
 Qed.
 
 (* ================================================================== urlsplit *)
@@ -437,10 +422,7 @@ Example ex_params :
 Proof. split; vm_compute; reflexivity. Qed.
 
 Example ex_plain_hyps :
-  has_char 58 (lit "server01") = false /\ has_char 91 (lit "server01") = false /\ has_char 93 (lit "server01") = false /\
-  lit "server01" <> [].
+  has_char 58 (lit "server01") = false /\ prefixb [91] (lit "server01") = false /\ lit "server01" <> [].
 Proof. repeat split; try reflexivity. discriminate. Qed.
-Example ex_ipv6_hyp : has_char 93 (lit "fe80::1%eth0") = false.
-Proof. reflexivity. Qed.
 Example ex_params_contract : bempty (lit "a=1") = true -> [(lit "a", lit "1")] = @nil (str * str).
 Proof. discriminate. Qed.
